@@ -51,6 +51,7 @@ struct Agg {
     violation_counts: BTreeMap<(String, String), u64>,
     policies: BTreeMap<String, u64>,
     caps: BTreeMap<String, u64>,
+    worker_threads: BTreeMap<String, u64>,
     endings: BTreeMap<String, u64>,
 }
 
@@ -116,6 +117,7 @@ impl Agg {
             .entry(format!("{:?}", sc.schedule.policy).chars().take(40).collect())
             .or_insert(0) += 1;
         *self.caps.entry(format!("{:?}", sc.knobs.chan_caps)).or_insert(0) += 1;
+        *self.worker_threads.entry(format!("{} worker(s)", sc.knobs.workers.max(1))).or_insert(0) += 1;
         if self.samples.len() < 6 && (self.scenarios % 97 == 1 || self.samples.is_empty()) {
             self.samples.push(json!(sc.summary()));
         }
@@ -747,6 +749,7 @@ pub fn run_check(def: &PropDef, tier: Tier, seed: u64, max_items: Option<u64>) -
             "probes_stuck_at_zero": stuck,
             "schedule_policies": agg.policies,
             "channel_capacities": agg.caps,
+            "simulated_worker_threads": agg.worker_threads,
             "process_endings": agg.endings,
             "other_property_notes": agg.notes,
             "foreign_layer_violations_ignored": foreign,
@@ -761,6 +764,7 @@ pub fn run_check(def: &PropDef, tier: Tier, seed: u64, max_items: Option<u64>) -
                 ],
                 "stub": [
                     "tokio runtime: scheduler, spawn, JoinHandle (incl. abort), runtime shutdown (simtokio executor)",
+                    "thread identity: the main task on the simulated main thread, every poll of another task on a seeded one of 1..4 simulated worker threads; `thread_local!` in lsp4spl/src is one value per simulated thread (spl_frontend's, and a `std::thread_local!` written with its path, are per OS thread = per run)",
                     "tokio::time (sleep, timeout, interval, Instant): simulated clock on logical ticks, unused by the pinned tree",
                     "thread stacks: 256 MiB worker threads, except the nesting ladder of C02 (child process, 2 MiB, the size of a tokio worker stack)",
                     "tokio::io::{Stdin,Stdout} and the OS pipes behind them",
